@@ -282,9 +282,16 @@ func init() {
 	defaultIntercepts["errors.Is"] = func(ps *PathState, fr *frame, fn *ssa.Function, args []value) value {
 		e, _ := args[0].(iface)
 		t, _ := args[1].(iface)
+		// errors produced by the filesystem stubs stand for the io/fs sentinels
+		sentinel := map[string]string{"fs:notexist": "new:file does not exist", "fs:exist": "new:file already exists", "fs:stat-denied": "new:permission denied"}
 		for e.t != nil {
 			if e.t == t.t && (e.v == t.v || equalsSafe(e.t, e.v, t.v)) {
 				return true
+			}
+			if se, ok := e.v.(*symErr); ok {
+				if te, ok := t.v.(*symErr); ok && (se.ID == te.ID || (sentinel[se.ID] != "" && sentinel[se.ID] == te.ID)) {
+					return true
+				}
 			}
 			var more bool
 			if e, more = unwrap(fr, e); !more {
